@@ -222,6 +222,49 @@ example : validateWorkflow exH exBad [] = .error (.graph { unreach := [5], dangl
     validateWorkflow exH ({ name := 9, accepted := [11, 2], returns := [] } :: exBad) [] = .error .multiStart := by
   decide
 
+/-- Events the engine does not deliver reach nobody.  A step that is not a `@catch_error` handler and accepts only
+event types that nothing *feeds* (`C23.Fed`: the start type, a HumanResponseEvent type, or a type some step returns)
+is not reachable from any entry point of the graph - in particular an ordinary step whose only input is
+StepFailedEvent, which the engine hands to the owning handler by name and never to steps by type, whether or not
+the workflow has handlers. -/
+theorem C23_unfed_step_unreachable (H : Hier) (W : List Step) (hnd : (names W).Nodup) (s : Step) (hs : s ∈ W)
+    (hh : s.handler = false) (hacc : ∀ c ∈ s.accepted, ¬Fed H W c) :
+    ¬∃ seed, InputSeed H W seed ∧ Reach (Edge W) seed (.step s.name) :=
+  unfed_step_unreachable hnd hs hh hacc
+
+/-- ... and validation rejects such a step set unless the reachability check is skipped for the workflow or for
+that step: `_validate_workflow` and `Workflow(...).validate()` return no value. -/
+theorem C23_unfed_step_rejected (H : Hier) (W : List Step) (skip : List Nat) (hnd : (names W).Nodup) (s : Step)
+    (hs : s ∈ W) (hh : s.handler = false) (hacc : ∀ c ∈ s.accepted, ¬Fed H W c)
+    (hk : ckReach ∉ skip) (hks : ckReach ∉ s.skip) :
+    (∀ b, validateWorkflow H W skip ≠ .ok b) ∧ (∀ b, constructAndValidate H W skip ≠ .ok b) := by
+  have hnwf : ¬WellFormed H W skip := fun wf => by
+    rcases wf.reachable with h | h
+    · exact hk h
+    · exact unfed_step_unreachable hnd hs hh hacc (h s hs hks)
+  exact ⟨fun b hb => hnwf ((C23_accepts_iff_wellformed H W skip hnd).mp ⟨b, hb⟩),
+    fun b hb => hnwf ((C23_validate_iff_wellformed H W skip hnd).mp ⟨b, hb⟩).1⟩
+
+/-- non-vacuity: next to a wildcard handler (step 5) the ordinary step 3 consumes StepFailedEvent only; nothing
+feeds that type, the hypotheses hold, and the model reports exactly step 3 as unreachable.  When step 1 also
+returns StepFailedEvent the type is fed and the same step set is accepted. -/
+example :
+    let W : List Step := [ { name := 1, accepted := [1], returns := [2] },
+      { name := 5, accepted := [5], returns := [2], handler := true },
+      { name := 3, accepted := [5], returns := [2] } ]
+    (∀ c ∈ [cStepFailed], ¬Fed exH W c) ∧
+    validateWorkflow exH W [] = .error (.graph { unreach := [3], dangling := [], deadEnd := [] }) ∧
+    validateWorkflow exH W [ckReach] = .ok false ∧
+    validateWorkflow exH ({ name := 1, accepted := [1], returns := [2, 5] } :: W.tail) [] = .ok false := by
+  refine ⟨?_, by decide, by decide, by decide⟩
+  intro c hc
+  simp only [List.mem_singleton] at hc
+  subst hc
+  rintro (⟨_, h⟩ | h | ⟨⟨s, hs, hc⟩, _⟩)
+  · revert h; decide
+  · revert h; decide
+  · revert hc; revert s; decide
+
 /-- `issubclass` of the model is the reflexive-transitive closure of the direct-base relation, for every
 class table in which bases are defined before their subclasses -/
 theorem C23_subclass_is_closure (H : Hier) (hwf : H.wf = true) (c d : Cls) :
